@@ -60,8 +60,8 @@ def build_expr(case, env):
 
 class ReduceBase(PropertyCheck):
     props_common = ['Tables.v']
-    static_targets = ['theories/Model/Exec.vo', 'theories/Model/Pinned.vo', 'theories/Lemmas/TablesL.vo', 'theories/Lemmas/ReduceStructsL.vo']
-    coq_header = A.COQ_HEADER + 'From Furax Require Import Model.Wf Lemmas.ReduceStructsL.\nFrom FuraxGen Require Import Tables.\n'
+    static_targets = ['theories/Model/Exec.vo', 'theories/Model/Pinned.vo', 'theories/Lemmas/TablesL.vo', 'theories/Lemmas/ReduceStructsL.vo', 'theories/Lemmas/ReduceTotalL.vo']
+    coq_header = A.COQ_HEADER + 'From Furax Require Import Model.Wf Lemmas.ReduceStructsL Lemmas.ReduceTotalL.\nFrom FuraxGen Require Import Tables.\n'
     shard = 120
     workers = 8
     trusted_common = [
@@ -222,10 +222,11 @@ class ReduceBase(PropertyCheck):
     def model_term(self, case):
         if case.get('_unsupported') or '_term' not in case:
             return None
-        # the hypotheses of reduce_structs (wfo: what the constructors guarantee; prims_okb: the two facts about
-        # leaf structures that cannot be read off a term) are evaluated on every encoded real expression
+        # the hypotheses of reduce_structs / reduce_total (wfo: what the constructors guarantee; prims_okb, params_okb:
+        # what cannot be read off a term but holds of every real object; weight <= the 12-level fuel) are evaluated on
+        # every encoded real expression: reduce_readyb = wfo && prims_okb && params_okb && (weight <=? alg_fuel)
         t = case['_term']
-        return f'((wfo {t} && prims_okb {t})%bool, observe {case["_table"]} (x_reduce gen_order {t}))'
+        return f'(reduce_readyb {t}, observe {case["_table"]} (x_reduce gen_order {t}))'
 
     def decode(self, case, v):
         wf, o = v
